@@ -181,6 +181,8 @@ UNARY = {
     # asking for an iterator without consuming it: fails at once on a value that cannot be iterated
     'iter_only': lambda x: iter(x) is not None, 'zip_only': lambda x: zip(x) is not None, 'enumerate_only': lambda x: enumerate(x) is not None,
     'first_of_iter': lambda x: next(iter(x)),
+    # next() on a result that is an iterator itself (a generator the student's function returned); evaluated afresh for each side
+    'next_fresh': lambda x: next(x),
     'str_mul_r': lambda x: 'ab' * x,
     'tuple': tuple, 'list': list, 'set': lambda x: set(x), 'dict': lambda x: dict(x), 'any': any,
     'join': lambda x: ','.join(x),
@@ -332,10 +334,14 @@ def judge(case):
     else:
         fn, arity = UNARY[op], 1
     ra = real_of(a_src)
+    if op == 'next_fresh':
+        ra = sb.evaluate(a_src)._actual_value       # an iterator of its own for the plain side
     rb = real_of(b_src) if arity == 2 else None
     real = run_op(fn, (ra, rb)[:arity])
     try:
         pa = carried_proxy_of(a_src) if place == 'carried' else proxy_of(a_src) if place in ('left', 'both') else real_of(a_src)
+        if op == 'next_fresh':
+            pa = sb.evaluate(a_src)                 # ... and another one behind the proxy
     except CarryFailed as e:
         return Result([V('C16|carried|value-does-not-arrive|%s' % type(ra).__name__, str(e))], True, ['carry-failed'])
     pb = None
@@ -415,9 +421,13 @@ def table(tier):
         for place in ('left', 'both'):
             yield {'op': 'getitem', 'a': a, 'b': b, 'place': place}
     for op in UNARY:
+        if op == 'next_fresh':
+            continue
         for a in VALUES:
             yield {'op': op, 'a': a, 'place': 'left'}
             yield {'op': op, 'a': a, 'place': 'carried'}
+    for a in ['iter([1, 2])', 'iter(())', '(i * 2 for i in range(3))', "iter('ab')", 'iter({1: 2})', 'reversed([1, 2])', 'zip([1], [2])', 'enumerate("a")', '5', '[1, 2]', "'ab'", 'None']:
+        yield {'op': 'next_fresh', 'a': a, 'place': 'left'}
     for op in ('add', 'mul', 'eq', 'lt', 'and', 'or'):
         for a, b in itertools.product(VALUES, VALUES):
             yield {'op': op, 'a': a, 'b': b, 'place': 'carried'}
